@@ -73,10 +73,6 @@ func CollectValueTokens(tokens *Tokens) Sink {
 				return nil, UnexpectedEndToken
 			}
 			stack = stack[:len(stack)-1]
-			if len(stack) == 0 {
-				return nil, nil
-			}
-			return sink, nil
 		case KindArray:
 			stack = append(stack, &Frame{
 				Kind: KindArrayEnd,
@@ -102,6 +98,10 @@ func CollectValueTokens(tokens *Tokens) Sink {
 				Kind: KindTypeName,
 			})
 			return sink, nil
+		}
+		// a value is complete: so are the type names that were waiting for it
+		for len(stack) > 0 && stack[len(stack)-1].Kind == KindTypeName {
+			stack = stack[:len(stack)-1]
 		}
 		if len(stack) > 0 {
 			return sink, nil
